@@ -62,7 +62,9 @@ _fresh_cache: dict = {}
 def fresh_view(cfg: str, limit: int, kind: str, ids: int, peer: str = "peer3.x") -> list[str]:
     key = (cfg, ids, peer)
     if key not in _fresh_cache:
-        line = cfg + " | start fail | mark probe:1 | " + " | ".join(probe_events(1, 0, limit, kind, ids, peer))
+        # (the failed dial to a persistent peer is connection 0 of the fresh node, when the configuration has one)
+        first = 1 if any(p["persistent"] and p["addr"] for p in nodecheck.parse_cfg(cfg)["peers"]) else 0
+        line = cfg + f" | start fail | mark probe:{first} | " + " | ".join(probe_events(first, 0, limit, kind, ids, peer))
         _fresh_cache[key] = probe_view(Obs(nodecheck.run_real(line)))
         if len(_fresh_cache) > 2000:
             _fresh_cache.pop(next(iter(_fresh_cache)))
@@ -325,6 +327,13 @@ def corpus() -> list[str]:
                "hold 0 1", "rx 1 " + nodegen.ccr(540, 541), "eof 1", "hold 0 0"]
         evs += ["handler 0"] * limit
         out.append(cfg + " | " + " | ".join(evs + [f"mark probe:2:{limit}:{limit}:t:700"] + probe_events(2, limit, limit, "t", 700)))
+        # requests that sat in the receive queue for longer than the slot wait while every slot was busy
+        # (no persistent peer here: the clock advances and nothing is to be redialled)
+        cfgq = cfg.replace(f"peer:peer2.x,{REALM},1,1,5", f"peer:peer2.x,{REALM},0,0,5")
+        evs = ["start", "acc", f"rx 0 {cer1}", "rx 0 " + " ".join(nodegen.ccr(560 + 2 * i, 561 + 2 * i) for i in range(limit)),
+               "hold 0 1", "rx 0 " + nodegen.ccr(580, 581) + " " + nodegen.ccr(582, 583), "adv 6", "hold 0 0", "adv 6", "tick"]
+        evs += ["handler 0"] * limit + ["eof 0"]
+        out.append(cfgq + " | " + " | ".join(evs + [f"mark probe:1:{limit}:{limit}:t:700"] + probe_events(1, limit, limit, "t", 700)))
     return out
 
 
